@@ -10,6 +10,9 @@ stdin : {"cases": [ {"gk": str, "members": [member, ...], "nmembers": [...], "cl
         nmembers = their normal form under the documented signature rules: the dotted / inner-parser styles are
                    declared from it (one add_argument per leaf, a nested ActionParser per sub-group)
         cls_full = the class style's default= dict names every offered member (else only the overridden ones)
+        inner_history = null | how the component parser of the inner-parser style was USED on its own before being
+                   attached (parse_env / parse_args_env / parse_args / help / defaults / dump; it then has
+                   default_env=True, env_prefix="COMPONENT")
         ty    = "int" | "str" | "bool" | ["list", ty] | ["opt", ty]
         dflt  = {"nd": 1} (no default) | {"v": json value}
         input = {"env": {NAME: text}, "kind": "args", "args": [[opt, value], ...]}   -> parse_args(["opt=value", ...])
@@ -208,7 +211,30 @@ def add_each(p, prefix, fields):
         p.add_argument("--" + prefix + n, type=t, **kw)
 
 
-def build(style, gk, members, nmembers, cls_full=False):
+def use_standalone(parser, how):
+    """the construction HISTORY of the inner-parser style: the component parser was used on its own before it is
+    attached under the key (a parse with environment parsing, a plain parse, its help rendered, its defaults read)"""
+    import io
+    from contextlib import redirect_stdout, redirect_stderr
+    try:
+        with redirect_stdout(io.StringIO()), redirect_stderr(io.StringIO()):
+            if how == "parse_env":
+                parser.parse_env({})
+            elif how == "parse_args_env":
+                parser.parse_args([], env=True)
+            elif how == "parse_args":
+                parser.parse_args([])
+            elif how == "help":
+                parser.format_help()
+            elif how == "defaults":
+                parser.get_defaults()
+            elif how == "dump":
+                parser.dump(parser.get_defaults())
+    except BaseException:  # noqa: a required option is missing etc.: the component was used all the same
+        pass
+
+
+def build(style, gk, members, nmembers, cls_full=False, history=None):
     """members: the declared members (signature styles); nmembers: their normal form under the documented
     signature rules (computed by the harness, checked against Model.C07Decl.mnorm by the judge), from which the
     two add_argument styles are declared"""
@@ -231,14 +257,19 @@ def build(style, gk, members, nmembers, cls_full=False):
         else:
             p.add_class_arguments(mk_class(members), gk)
     elif style == "inner":
-        ip = ArgumentParser(exit_on_error=False)
+        kw = {"default_env": True, "env_prefix": "COMPONENT"} if history else {}
+        ip = ArgumentParser(exit_on_error=False, **kw)
         for m in nmembers:
             if m[0] == "leaf":
                 add_each(ip, "", [m[1:]])
             else:
-                sp = ArgumentParser(exit_on_error=False)
+                sp = ArgumentParser(exit_on_error=False, **kw)
                 add_each(sp, "", m[2])
+                if history:
+                    use_standalone(sp, history)
                 ip.add_argument("--" + m[1], action=ActionParser(parser=sp))
+        if history:
+            use_standalone(ip, history)
         p.add_argument("--" + gk, action=ActionParser(parser=ip))
     return p
 
@@ -387,10 +418,11 @@ def main():
         fields = members_of(case["members"])
         nfields = members_of(case["nmembers"])
         full = bool(case.get("cls_full"))
+        history = case.get("inner_history")
         res = {"tables": {}, "runs": []}
         for st in STYLES:
             try:
-                res["tables"][st] = table(build(st, case["gk"], fields, nfields, full))
+                res["tables"][st] = table(build(st, case["gk"], fields, nfields, full, history))
             except BaseException as e:  # noqa
                 res["tables"][st] = {"error": type(e).__name__ + ": " + str(e)[:200]}
         for inp in case["inputs"]:
@@ -402,7 +434,7 @@ def main():
                 os.environ.update(saved)
                 os.environ.update(inp["env"])
                 try:
-                    p = build(st, case["gk"], fields, nfields, full)
+                    p = build(st, case["gk"], fields, nfields, full, history)
                 except BaseException as e:  # noqa
                     r["styles"][st] = {"out": "other:build:" + type(e).__name__, "dump": None}
                     continue
